@@ -1,4 +1,4 @@
-import Nstd.Generated.CallbackBody
+import Nstd.Callback.Heap
 import Nstd.Callback.LemmasAudit
 /-
   Algebra of the heap operations of Heap.lean on states in the normal form `st.setEmitter e (some (em.setSig g d))` /
